@@ -15,6 +15,9 @@ type fataler interface {
 
 // Fail records the failing case as a replay file and fails the test.
 func Fail(t fataler, f ev.Failure) {
+	if len(f.Observed) > 1500 {
+		f.Observed = f.Observed[:700] + " ... " + f.Observed[len(f.Observed)-700:]
+	}
 	path := ev.WriteReplay(f)
 	t.Fatalf("%s violated [%s]: %s\nobserved: %s\nexpected: %s\nreplay: %s", f.Property, f.Signature, f.Clause, f.Observed, f.Expected, path)
 }
